@@ -430,7 +430,9 @@ def check_default_atom_lines(ctx, rid):
             continue
         nprog += 1
         f = {name: None for name in iocls.fields}
-        coords = np.array([[1.0, -2.5, 4.0], [0.5, 8.0, -16.0], [3.0, 6.0, 9.0]])
+        # (the second atom lies thousands of angstrom away, with negative coordinates: columns of a fixed width must
+        # still be separated -- a large periodic image or a dissociated fragment is a legal geometry)
+        coords = np.array([[1.0, -2.5, 4.0], [-3000.5, -4001.0, -2469.135782], [3.0, 6.0, 9.0]])
         # effective core charges differ from the atomic numbers: the symbol is the element's, not the core charge's
         f.update(title="T", atnums=np.array([17, 1, 8]), _atcorenums=np.array([7.0, 1.0, 6.0]), atcoords=coords, extra={}, atcharges={}, atffparams={}, moments={}, one_rdms={}, two_rdms={})
         data = Rec(iocls, **{k: v for k, v in f.items() if k in iocls.fields})
